@@ -1,5 +1,6 @@
 SPECIFICATION Spec
-CONSTANTS N = 4
+CONSTANTS DataPlane = "off"
+          N = 4
           MaxTime = 12
           Silent = 3
           FaultKind = "silent"
